@@ -332,6 +332,52 @@ theorem walk_paragraph_gen (cfg : PartCfg) (num : Dict Str (List NumAttr)) (c : 
       have := congrArg (fun x => x.2.2.2.1) hmeta; simpa [parMeta] using this
     exact ⟨s1, sb, h1, hsb, by rw [e3, hl2, e1]; exact hlb⟩
 
+theorem vmergeDo_openPars (ti ri : Nat) (s s' : DC) (h : vmergeDo ti ri s = .ok s') : s'.openPars = s.openPars := by
+  unfold vmergeDo at h
+  obtain ⟨s1, h1, h⟩ := bind_ok h
+  have f1 := (setCaret_frame s s1 _ _ h1).openPars
+  obtain ⟨_, _, h⟩ := bind_ok h
+  obtain ⟨_, _, h⟩ := bind_ok h
+  split at h
+  · have := pure_ok h; subst this; exact f1
+  · split at h
+    · have := pure_ok h; subst this; exact f1
+    · have := pure_ok h; subst this; exact f1
+
+theorem spanStep_openPars (dup : Bool) (ti ri : Nat) (s s' : DC) (h : spanStep dup ti ri s = .ok s') : s'.openPars = s.openPars := by
+  unfold spanStep at h
+  obtain ⟨s1, h1, h⟩ := bind_ok h
+  have f1 := (setCaret_frame s s1 _ _ h1).openPars
+  obtain ⟨_, _, h⟩ := bind_ok h
+  have := pure_ok h; subst this; exact f1
+
+theorem iterateM_openPars (f : DC → M DC) (hf : ∀ a b, f a = .ok b → b.openPars = a.openPars) :
+    ∀ (n : Nat) (s s' : DC), iterateM f n s = .ok s' → s'.openPars = s.openPars
+  | 0, s, s', h => by simp only [iterateM] at h; have := pure_ok h; subst this; rfl
+  | n+1, s, s', h => by
+    simp only [iterateM] at h
+    obtain ⟨s1, h1, h⟩ := bind_ok h
+    exact (iterateM_openPars f hf n s1 s' h).trans (hf s s1 h1)
+
+/-- `_close_table_cell` works on the tree only: the open paragraphs are not touched -/
+theorem closeTableCell_openPars (dup : Bool) (s s' : DC) (tc : Xml) (h : closeTableCell dup s tc = .ok s') :
+    s'.openPars = s.openPars := by
+  unfold closeTableCell at h
+  split at h
+  · have := pure_ok h; subst this; rfl
+  · obtain ⟨pr, _, h⟩ := bind_ok h
+    obtain ⟨cap, _, h⟩ := bind_ok h
+    split at h
+    · have := pure_ok h; subst this; rfl
+    · obtain ⟨s1, h1, h⟩ := bind_ok h
+      obtain ⟨n, _, h⟩ := bind_ok h
+      have e1 : s1.openPars = s.openPars := by
+        unfold vmergeStep at h1
+        split at h1
+        · exact vmergeDo_openPars _ _ s s1 h1
+        · have := pure_ok h1; subst this; rfl
+      exact (iterateM_openPars _ (fun a b hab => spanStep_openPars dup _ _ a b hab) n s1 s' h).trans e1
+
 /-- the same with no implicit paragraph pending: nothing is concluded first -/
 theorem walk_paragraph (cfg : PartCfg) (num : Dict Str (List NumAttr)) (c : Bool) (s s' : DC)
     (i : Nat) (p : Option Str) (t : QName) (m : NsMap) (a : List (QName × Str)) (tx tl : Option Str) (ks : List Xml)
